@@ -81,27 +81,27 @@ type Violation struct {
 
 // Result of exploring one scenario.
 type Result struct {
-	Scenario    string         `json:"scenario"`
-	Params      any            `json:"params,omitempty"`
-	Bounds      Bounds         `json:"bounds"`
-	Execs       int            `json:"execs"`
-	Nodes       int            `json:"nodes"`
-	Steps       int            `json:"steps"`
-	MaxPoints   int            `json:"max_points"`
-	Cut         bool           `json:"cut"`    // some alternative was skipped because of a budget
-	Capped      bool           `json:"capped"` // wall-clock cap hit: exploration incomplete within the budgets
-	Outcomes    []string       `json:"outcomes"` // hashes of distinct canonical outcomes
-	Nontrivial  []string       `json:"nontrivial"`
-	RuleHits    map[string]int `json:"rule_hits,omitempty"`
-	Violations  []Violation    `json:"violations,omitempty"`
-	Sample      any            `json:"sample,omitempty"`
-	SleepBlocked int           `json:"sleep_blocked,omitempty"` // POR: runs cut because every enabled thread was asleep (redundant reorderings; not counted as executions)
-	POR         bool           `json:"por,omitempty"`
-	Replayed    int            `json:"replayed"` // executions re-run for the determinism check
-	EngineError string         `json:"engine_error,omitempty"`
-	WallS       float64        `json:"wall_s"`
-	Seq         bool           `json:"seq,omitempty"`
-	Extra       map[string]any `json:"extra,omitempty"`
+	Scenario     string         `json:"scenario"`
+	Params       any            `json:"params,omitempty"`
+	Bounds       Bounds         `json:"bounds"`
+	Execs        int            `json:"execs"`
+	Nodes        int            `json:"nodes"`
+	Steps        int            `json:"steps"`
+	MaxPoints    int            `json:"max_points"`
+	Cut          bool           `json:"cut"`      // some alternative was skipped because of a budget
+	Capped       bool           `json:"capped"`   // wall-clock cap hit: exploration incomplete within the budgets
+	Outcomes     []string       `json:"outcomes"` // hashes of distinct canonical outcomes
+	Nontrivial   []string       `json:"nontrivial"`
+	RuleHits     map[string]int `json:"rule_hits,omitempty"`
+	Violations   []Violation    `json:"violations,omitempty"`
+	Sample       any            `json:"sample,omitempty"`
+	SleepBlocked int            `json:"sleep_blocked,omitempty"` // POR: runs cut because every enabled thread was asleep (redundant reorderings; not counted as executions)
+	POR          bool           `json:"por,omitempty"`
+	Replayed     int            `json:"replayed"` // executions re-run for the determinism check
+	EngineError  string         `json:"engine_error,omitempty"`
+	WallS        float64        `json:"wall_s"`
+	Seq          bool           `json:"seq,omitempty"`
+	Extra        map[string]any `json:"extra,omitempty"`
 }
 
 var ruleHits map[string]int
